@@ -27,12 +27,15 @@ def lifetime(rng, kind, steps, hist):
     x, y = 50.0, 50.0
     emb = [rng.uniform(-1, 1) for _ in range(4)]
     mode = rng.choice(["inc", "dec", "equal", "around", "close", "random"])
+    # box sizes straddling the minimal-area thresholds (100, 400) while still overlapping enough to continue the track
+    # positionally: the detection's own box and the track's smoothed box then fall on different sides of the collect gate
+    base = rng.choice([10.5, 21.0, 30.0])
     for k in range(steps):
         x += rng.uniform(-2, 2); y += rng.uniform(-2, 2)
         q = {"inc": 0.1 + 0.8 * k / steps, "dec": 0.9 - 0.8 * k / steps, "equal": 0.75, "around": rng.choice([0.49, 0.5, 0.51, 0.69, 0.7, 0.71]),
              "close": 0.8 + rng.choice([0.001, 0.004, 0.007, 0.002]), "random": rng.uniform(0, 1)}[mode]
         feat = None if rng.random() < 0.15 else [f32(v + rng.uniform(-0.02, 0.02)) for v in emb]
-        d = (x, y, None, 1.0, rng.choice([30.0, 30.0, 8.0]), 1.0, None)
+        d = (x, y, None, 1.0, rng.choice([base, base, f32(base * 0.9), 8.0]), 1.0, None)
         tok = det_tok(*d, vis=((q if rng.random() < 0.9 else None, feat) if vis else None))
         lines.append("trk predict 1 0 1 " + tok)
         if rng.random() < 0.03: lines.append("trk wasted")
